@@ -121,12 +121,37 @@ def init_obligations(classes=None):
             extra = {a: fx.show(v) for a, v in got.items() if a not in params}
             allowed_extra = {"MI": {"ovo"}, "RIM": {"gemini", "batch_size"}, "KernelRIM": {"gemini", "batch_size"}, "SparseLinearMI": {"gemini"}}
             for a in list(extra):
-                if a in allowed_extra.get(cls.__name__, set()) or a in _inherited_fixed(cls):
+                # a base-class option this class does not expose may only be FIXED to a constant (an object built from the other
+                # parameters at construction time would not follow set_params)
+                if (a in allowed_extra.get(cls.__name__, set()) or a in _inherited_fixed(cls)) and fx.is_const(got[a]):
                     extra.pop(a)
             ok = not bad and not extra
             det = {"not stored unchanged": bad, "unexpected attributes": extra}
         obs.append(Ob(f"{cls.__name__}.__init__: every constructor parameter is stored unchanged under its own name", PROVED if ok else REFUTED,
                       "fx-frame", "P", det, fn=fn))
+    return obs
+
+
+def update_step_obligations():
+    """every _update_weights (base class and overrides) hands (weights, gradients) to the optimiser exactly once on EVERY path:
+    the number of optimiser steps of a fit is the number of mini-batches drawn, whatever the state of the model"""
+    obs = []
+    seen = set()
+    for cls in estimators_all():
+        f = getattr(cls, "_update_weights", None)
+        if f is None or f in seen:
+            continue
+        seen.add(f)
+        owner = f.__qualname__.split(".")[0]
+        fn = f"{f.__module__}.{f.__qualname__}"
+        try:
+            sts = fx.Interp(cls, inline_filter=lambda o, m: m == "_update_weights", max_depth=4).run_method("_update_weights")
+        except fx.FxUnsupported as e:
+            obs.append(Ob(f"{owner}._update_weights: analysable", UNDECIDED, "fx", "P", {"why": str(e)}, fn=fn))
+            continue
+        counts = [sum(1 for e in st.events if e[0] == "call" and e[2] == "self.optimiser_.update_params") for st in sts if st.ended != "raise"]
+        obs.append(Ob(f"{owner}._update_weights: one optimiser step on every path ({len(counts)} paths)", PROVED if counts and all(c == 1 for c in counts) else REFUTED,
+                      "fx-dataflow", "P", {"optimiser steps per path": counts}, fn=fn))
     return obs
 
 
